@@ -572,16 +572,16 @@ class EvalMixin:
         raise Unsupported("subscript of " + base.k)
 
     def key_hint(self, d, key):
-        """dict hints: 'dict[K1:T1;K2:T2;*:T]' (TypedDict-like) or 'dict[T]' (all values T)"""
+        """dict hints: 'dict[K1=T1;K2=T2;*=T]' (TypedDict-like) or 'dict[T]' (all values T)"""
         h = d.h
         if not h:
             return None
-        if ":" not in h:
+        if "=" not in h:
             return h
         kt = z3.simplify(key.t) if key.k == "str" else None
         default = None
         for part in h.split(";"):
-            kname, t = part.split(":", 1)
+            kname, t = part.split("=", 1)
             if kname == "*":
                 default = t
             elif kt is not None and z3.is_string_value(kt) and kt.as_string() == kname:
